@@ -388,7 +388,7 @@ def finish(prop, tier, level, res, cov, t0, floor=2, assumptions=None):
     return 0
 
 def generic_pbt(prop, tier, n_quick, n_thorough, size_quick=100, size_thorough=100, level='exploration', floor=20, flavour='asan',
-                assumptions=None, shards_quick=16, shards_thorough=16, prop_arg=None, extra_cov=None, extra_env=None, extra_cases=None, fuzz=None):
+                assumptions=None, shards_quick=16, shards_thorough=16, prop_arg=None, extra_cov=None, extra_env=None, extra_cases=None, fuzz=None, post_cov=None):
     t0 = time.time()
     res = Result()
     try:
@@ -449,6 +449,8 @@ def generic_pbt(prop, tier, n_quick, n_thorough, size_quick=100, size_thorough=1
     cov.update(fuzz_cov)
     if fuzz_cov:
         cov['evaluations'] += sum(v['executions'] for v in fuzz_cov.values())
+    if post_cov:
+        post_cov(cov)
     return finish(prop, tier, level, res, cov, t0, floor=floor, assumptions=assumptions)
 
 def run_fuzz(prop, target, seeds, budget_s, jobs, tier, max_len, res, cov, props_of_fail=None):
